@@ -10,7 +10,8 @@ Open Scope Z_scope.
 Record cfg_acct (c : vcfg) : Prop := mkCfgAcct {
   ca_ok : cfg_ok c;
   ca_max : 0 <= c_maxcount c < 2147483647;     (* maxMemoryAllocationCount *)
-  ca_large : 0 <= c_large c < 2 ^ 61           (* PreferredLargeHeapBlockSize *)
+  ca_large : 0 <= c_large c < 2 ^ 61;          (* PreferredLargeHeapBlockSize *)
+  ca_atom : 1 <= c_atom c                      (* nonCoherentAtomSize (a power of two >= 1 by the Vulkan specification) *)
 }.
 
 (* sizes handed to the allocator: below 2^62 *)
@@ -196,6 +197,7 @@ Proof.
   - constructor; [cbn; lia|constructor; [cbn; lia|constructor]].
   - right. apply Bits.pow2_1.
   - right. apply Bits.pow2_1.
+  - lia.
   - lia.
   - lia.
 Qed.
